@@ -15,7 +15,7 @@ func init() {
 	register(&propDef{
 		id: "C12", level: "other", run: runC12,
 		trusted: []string{"encoding/xml returns an error from Token/DecodeElement when the byte stream ends inside or between elements", "a closed channel is always ready in a select"},
-		explain: "Decides, per exit path of Client.recv, how many error callbacks and Disconnected events are emitted (R1: exactly one of each on every exit that ends a session other than the graceful stream close, the event carrying a load of Session.SMState), that the quit channel is closed on every exit and is the one keepalive waits on (R2), that keepalive stops on quit or after a failed ping and never pings after quit (R3), and that every goroutine the library starts is one of a frozen inventory with a terminating alternative for each blocking channel operation (R4). Not decided: that a cut at an arbitrary byte makes encoding/xml return an error (trusted); leaks caused by application handlers or contexts that are never cancelled.",
+		explain: "Decides, per exit path of Client.recv, how many error callbacks and Disconnected events are emitted (R1: exactly one of each on every exit that ends a session other than the graceful stream close, the event carrying a load of Session.SMState), that the quit channel is closed on every exit and is the one keepalive waits on (R2), that keepalive stops on quit or after a failed ping and never pings after quit (R3), and that every goroutine the library starts either is one of the session goroutines whose end R1–R3 establish or leaves each of its loops when a fallible call fails, with a terminating alternative for each blocking channel operation (R4). Not decided: that a cut at an arbitrary byte makes encoding/xml return an error (trusted); leaks caused by application handlers or contexts that are never cancelled.",
 	})
 }
 
@@ -23,7 +23,7 @@ func runC12(w *World, r *Report, tier string) {
 	r.Rule("R1", "every exit of Client.recv other than the graceful stream-close exit passes exactly one ErrorHandler call and exactly one disconnected(Session.SMState) call")
 	r.Rule("R2", "recv defers close(keepaliveQuit) in its entry block; at every start site keepalive and recv get the same channel")
 	r.Rule("R3", "keepalive: the quit case stops the ticker and returns with no Ping reachable; a failed Ping stops the ticker, closes the transport and returns")
-	r.Rule("R4", "goroutine inventory: every go statement in library code is in the frozen table; every blocking channel operation inside library goroutines has a terminating alternative or is a tabled exception")
+	r.Rule("R4", "goroutine inventory: every go statement in library code starts one of the session goroutines whose end R1–R3 establish, or a function with no loop / whose every loop passes through a fallible call and leaves when it fails; every blocking channel operation inside library goroutines has a terminating alternative (buffered channel, select with a done/timeout case)")
 
 	fn := w.Func("xmpp.(*Client).recv")
 	fEH := w.Field("xmpp.Client.ErrorHandler")
@@ -251,6 +251,19 @@ func c12Keepalive(w *World, r *Report, rule string) {
 	isSel := func(in ssa.Instruction) bool { return in == ssa.Instruction(sel) }
 	isStop := w.isCallTo("time.Ticker.Stop")
 	isClose := w.isCallTo("xmpp.Transport.Close")
+	// a `defer ticker.Stop()` registered on every way to the select stops the ticker on every return
+	deferredStop := false
+	allInstrs(ka, func(in ssa.Instruction) {
+		if d, ok := in.(*ssa.Defer); ok && isStop(d) {
+			if ok2, _ := mustPass(entryLoc(ka), isSel, func(x ssa.Instruction) bool { return x == ssa.Instruction(d) }, nil); ok2 {
+				deferredStop = true
+			}
+		}
+	})
+	isRunDefers := func(in ssa.Instruction) bool { _, ok := in.(*ssa.RunDefers); return ok }
+	stopped := func(path []ssa.Instruction) bool {
+		return countOn(path, isStop) > 0 || (deferredStop && countOn(path, isRunDefers) > 0)
+	}
 	// quit case
 	badQ := ""
 	nq := 0
@@ -263,7 +276,7 @@ func c12Keepalive(w *World, r *Report, rule string) {
 		if countOn(path, isPing) > 0 {
 			badQ = "a keepalive is sent after the quit channel fired"
 		}
-		if countOn(path, isStop) == 0 {
+		if !stopped(path) {
 			badQ = "the ticker is not stopped when the session ends"
 		}
 	})
